@@ -549,6 +549,25 @@ func randCall(r *Rng, o genOpts) *Call {
 		for i, n := 0, r.Intn(4); i < n; i++ {
 			c.Args = append(c.Args, randD(r, o.maxDepth, o))
 		}
+	case mode < 16 && o.invalidUTF8: // a format of arbitrary bytes
+		n := 1 + r.Intn(14)
+		b := make([]byte, n)
+		for i := range b {
+			switch r.Intn(5) {
+			case 0:
+				b[i] = '%'
+			case 1:
+				b[i] = "vdsxqT[]*.0-+# 123"[r.Intn(18)]
+			case 2:
+				b[i] = []byte{0xe2, 0x80, 0xb9, 0xba, 0xc3, 0xff, '\n'}[r.Intn(7)]
+			default:
+				b[i] = byte(r.Intn(256))
+			}
+		}
+		c.Raw = QS(capDigitRuns(string(b)))
+		for i, n := 0, r.Intn(3); i < n; i++ {
+			c.Args = append(c.Args, randD(r, 1, o))
+		}
 	case mode < 17: // a format without any directive (constant message), with or without operands
 		var b strings.Builder
 		for i, n := 0, r.Intn(4); i < n; i++ {
